@@ -18,7 +18,7 @@ LEVEL = "proof"
 REQUIRED_THEOREMS = [
     "lattice_invariant", "no_overshoot", "progress", "run_terminates", "steps_eq_ceil",
     "whole_range_exact", "whole_range_exact_approx", "general_range", "state_is_iterate",
-    "observation_independent", "initial_state_untouched", "readonly_reaches_final",
+    "observation_independent", "initial_state_untouched", "readonly_reaches_final", "whole_range_exact_readonly",
     "round_stable", "steps_stable_under_relative_error",
 ]
 RULE = ("groups of runs sharing (dt, t_start, t_end, equation, solver, backend) and differing in the tracker "
@@ -50,7 +50,8 @@ MALFORMED = [
 
 # ------------------------------------------------------------------------------------------
 def gen_group(rng, hist, exec_mode, max_steps):
-    numbers = rng.choice(["Q", "F"])
+    # under JIT only dyadic numbers have a bit-exact reference (see ctrl.resolve): favour them there
+    numbers = rng.choice(["Q", "F"]) if exec_mode != "numba-J" else rng.choice(["Q", "Q", "Q", "F"])
     dt, t0, t1, N, delta = ctrl.gen_base(rng, numbers, hist, max_steps)
     eq = rng.choice(["one", "time"])
     solver = "euler" if rng.random() < 0.8 else rng.choice(ctrl.FIXED_SOLVERS[1:])
@@ -92,7 +93,7 @@ def run_monitors(ctx, group, reals):
 def run(ctx):
     from harness.common.lean import LeanBatch
     rng = ctx.rng
-    plan = {"numpy": ctx.budget(330, 4200), "numba-S": ctx.budget(60, 700), "numba-J": ctx.budget(12, 110)}
+    plan = {"numpy": ctx.budget(500, 14000), "numba-S": ctx.budget(90, 2400), "numba-J": ctx.budget(12, 320)}
     groups = {m: [gen_group(rng, ctx.hist, m, 120 if m != "numba-J" else 40) for _ in range(n)] for m, n in plan.items()}
     results = ctrl.exec_groups(ctx, groups)
     batch, pending = LeanBatch(ctx.workdir), []
